@@ -173,9 +173,39 @@ def gen_cases(seed, n_cases):
             ops += ["N", "S", "r"] + probes(m, rnd)
             out.append(("write", line(bytes(rnd.randrange(256) for _ in range(rnd.choice([0, 96, 300]))), ops)))
         elif sel == 5:      # load, modify, write again, reload
-            ops = [R(sup)] + probes(n, rnd) + ["A:%x:%x" % (rnd.randrange(1 << 40), rnd.randrange(1 << 24)), "S",
-                                              "T:0:%x:%x" % (rnd.randrange(1 << 40), rnd.randrange(1 << 32)),
-                                              "W:0:0", "r"] + probes(n + 1, rnd)
+            # a LOADED table has capacity = used = n, so appends grow it n -> 2n -> 4n (FragTableGrow.v: ft_appends_holds
+            # for any state meeting ft_inv); j appends cross 1, 2 or 3 growth steps.  Compared: return value and index of
+            # every append, count, lookups of old / new / out-of-range indices, the written table, the reload - nothing
+            # that depends on the capacity.
+            j = rnd.choice([1, n + 1, 3 * n + 1, 7 * n + 1])
+            while j > 600:
+                j = (j - 1) // 2 if j > n + 1 else 1
+            ops = [R(sup)] + probes(n, rnd)
+            for _ in range(j):
+                ops.append("A:%x:%x" % (rnd.randrange(1 << 40), rnd.randrange(1 << 24)))
+            ops += probes(n + j, rnd, [n - 1, n, 2 * n - 1, 2 * n, n + j - 1])
+            if rnd.random() < 0.6:
+                # sqfs_copy (FragTableCopy.v): the copy has capacity = used = n + j whatever the original's capacity is.
+                # Change the original (append, set), then switch to the copy: it must still answer as at copy time
+                # (count n + j, index n + j out of bounds, entry 0 unchanged); grow the copy by 1 or 2 doublings; switch
+                # back: the original must not have seen the copy's appends.
+                u = n + j
+                k1 = rnd.choice([1, 2, 5])
+                ops.append("C")
+                for _ in range(k1):
+                    ops.append("A:%x:%x" % (rnd.randrange(1 << 40), rnd.randrange(1 << 24)))
+                ops.append("T:0:%x:%x" % (rnd.randrange(1 << 40), rnd.randrange(1 << 32)))
+                ops += probes(u + k1, rnd, [u - 1, u])
+                ops.append("X")
+                ops += probes(u, rnd, [u - 1, u, u + k1 - 1, u + k1])
+                k2 = rnd.choice([1, u + 1]) if u + 1 <= 300 else 1
+                for _ in range(k2):
+                    ops.append("A:%x:%x" % (rnd.randrange(1 << 40), rnd.randrange(1 << 24)))
+                ops += probes(u + k2, rnd, [u - 1, u, 2 * u - 1, 2 * u])
+                ops.append("X")
+                ops += probes(u + k1, rnd, [u - 1, u, u + k1, u + k2 - 1])
+                j += k1
+            ops += ["T:0:%x:%x" % (rnd.randrange(1 << 40), rnd.randrange(1 << 32)), "W:0:0", "r"] + probes(n + j, rnd, [n, 2 * n])
             out.append(("reload", line(img, ops)))
         elif sel == 6:      # good -> flagged-empty -> append
             ops = [R(sup), "S", R(sup, flags=NOFRAG), "S", "L:0", "A:10:20", "S", "L:0", "L:1", R(sup, count=0), "S", "L:0"]
